@@ -6408,8 +6408,7 @@ impl Nudge {
                 )
             })?
             .years_ranged(balanced.get_years_ranged())
-            .months_ranged(balanced.get_months_ranged())
-            .weeks_ranged(balanced.get_weeks_ranged());
+            .months_ranged(balanced.get_months_ranged());
 
         let diff_nanos = rounded_nanos - balanced_nanos;
         let diff_days = rounded_nanos.div_ceil(t::NANOS_PER_CIVIL_DAY)
